@@ -14,6 +14,7 @@ import Driver.Edit
 import Driver.CmdProto
 import Driver.Asm
 import Driver.Enc
+import Driver.FlagH
 open Lace Lace.Driver
 
 /-- `X02 stackOn minimal instr <machine> inp-hex`
@@ -83,6 +84,9 @@ def handle (line : String) : String :=
   | "A01" :: rest => handleA01 rest
   | "A19" :: rest => handleA19 rest
   | "P01" :: rest => Lace.Driver.Enc.handleP01 rest
+  | "F18" :: rest => handleF18 rest
+  | "R18" :: rest => handleR18 rest
+  | "P18" :: rest => handleP18 rest
   | _ => "bad-request"
 
 partial def loop (h : IO.FS.Stream) (out : IO.FS.Stream) : IO Unit := do
